@@ -30,6 +30,12 @@ func genC16A(r *h.Rng, tier string, idx int) *h.Plan {
 	p := &h.Plan{Cfg: map[string]interface{}{}}
 	ids := []string{"j1", "j2", "j3"}
 	p.Cfg["pause_ns"] = int64(time.Duration(r.Range(1, 5)) * time.Second)
+	// the cron's capacity: ample, or so small that the timeline fills up
+	p.Cfg["limit"] = float64(1000)
+	if r.P(1, 4) {
+		p.Cfg["limit"] = float64(r.Range(2, 3))
+		ids = append(ids, "j4")
+	}
 	n := r.Range(4, 16)
 	sleep := func(lo, hi int) {
 		// each operation gets its own sub-millisecond residue (2 us more than
@@ -38,6 +44,23 @@ func genC16A(r *h.Rng, tier string, idx int) *h.Plan {
 		p.Ops = append(p.Ops, h.Op{K: "sleep", N: int64(d)})
 	}
 	sleep(1, 900)
+	if r.P(1, 10) {
+		// a full house: while a recurring job's slow callback runs, other jobs
+		// take every place in the timeline; the recurring job still has its
+		// next occurrence coming
+		p.Cfg["limit"] = float64(2)
+		p.Cfg["mode"] = "fullhouse"
+		p.Ops = append(p.Ops, h.Op{K: "add", Id: "j1", S: "* * * * * * *", N: int64(time.Duration(r.Range(1200, 1800)) * time.Millisecond)})
+		p.Ops = append(p.Ops, h.Op{K: "add", Id: "j2", S: "+8500ms"})
+		sleep(1100, 1900)
+		p.Ops = append(p.Ops, h.Op{K: "add", Id: "j3", S: "+9500ms"})
+		sleep(3000, 5000)
+		if r.Bool() {
+			p.Ops = append(p.Ops, h.Op{K: "rem", Id: "j2"})
+			sleep(2000, 3000)
+		}
+		return p
+	}
 	for i := 0; i < n; i++ {
 		switch r.Weighted([]int{8, 4, 1, 1, 1, 1, 1}) {
 		case 0:
@@ -118,7 +141,7 @@ func execC16A(t *testing.T, plan *h.Plan, trace bool) *h.Result {
 		h.ResetParams()
 		ctx := h.NewCtx(h.Prot{})
 		b := cron.NewCronBroadcaster()
-		cr, _ := cron.NewCron(b, time.Duration(plan.CfgI("pause_ns", int64(time.Second))), "sim", 1000)
+		cr, _ := cron.NewCron(b, time.Duration(plan.CfgI("pause_ns", int64(time.Second))), "sim", int(plan.CfgI("limit", 1000)))
 		cr.Start(ctx)
 		start := time.Now()
 		var mu sync.Mutex
@@ -182,6 +205,17 @@ func execC16A(t *testing.T, plan *h.Plan, trace bool) *h.Result {
 				}
 				g.sched = sched
 				mu.Lock()
+				// how many jobs the timeline holds (or will hold again when a callback returns)
+				live, replacing := 0, false
+				for _, x := range regs {
+					if x.removed.IsZero() && !(x.oneShot && len(x.fires) > 0) {
+						live++
+						if x.id == op.Id {
+							replacing = true
+						}
+					}
+				}
+				prev := cur[op.Id]
 				if old := cur[op.Id]; old != nil && old.removed.IsZero() {
 					old.removed = now
 				}
@@ -202,8 +236,20 @@ func execC16A(t *testing.T, plan *h.Plan, trace bool) *h.Result {
 					mu.Unlock()
 					return nil
 				})
-				if err != nil {
-					fail("add-refused", "add", "Cron.Add(%s, %q) returned %v", op.Id, sched, err)
+				others := live
+				if replacing {
+					others-- // the job this one replaces leaves first
+				}
+				_ = prev
+				if err != nil && others >= int(plan.CfgI("limit", 1000)) {
+					// refused for capacity: nothing is registered under this id any more
+					// (a job it was to replace has been taken out before the check)
+					mu.Lock()
+					g.removed = now
+					mu.Unlock()
+					res.Count("adds_refused_for_capacity", 1)
+				} else if err != nil {
+					fail("add-refused", "add", "Cron.Add(%s, %q) returned %v (%d jobs held, limit %d)", op.Id, sched, err, live, plan.CfgI("limit", 1000))
 				}
 			case "rem":
 				mu.Lock()
@@ -319,6 +365,22 @@ func execC16A(t *testing.T, plan *h.Plan, trace bool) *h.Result {
 					}
 				}
 				prev = f
+			}
+			// bounded liveness: a recurring job that is still registered keeps
+			// firing - several occurrences after its last callback returned, with
+			// nothing suspended since, cannot all have gone by without a fire
+			if res.Viol == nil && g.removed.IsZero() {
+				t0 := g.at
+				if len(g.fires) > 0 {
+					t0 = g.fires[len(g.fires)-1].Add(g.slow)
+				}
+				if len(g.returned) < len(g.fires) {
+					continue // its last callback has not returned yet
+				}
+				occ := g.occurrencesBetween(t0.Add(time.Second), end.Add(-2*time.Second))
+				if len(occ) >= 2 && !inSuspension(t0.Add(-time.Second), end) {
+					fail("recurring-stopped", "recurring", "recurring job %s (%s, callback %v), never removed, last fired at +%v and then let %d occurrences go by until +%v: %v", g.id, g.sched, g.slow, t0.Add(-g.slow).Sub(start), len(occ), end.Sub(start), relTimes(occ, start))
+				}
 			}
 		}
 		res.SimNanos = int64(time.Since(start))
